@@ -450,6 +450,97 @@ def gen_c03_case(rnd, steps, flavour):
     return Case(sh.lines, 'c03-' + flavour, {'cls': sh.cls})
 
 
+# ------------------------------------------------------------------------------------------------
+# C03: every link container kind, members addressed by name string / id string / handle, for ordinary names,
+# uuid-shaped names and names that are the id of another entity (seeded change C03-B: a group member with a
+# uuid-shaped NAME removed BY NAME STRING stayed in the group)
+# ------------------------------------------------------------------------------------------------
+LINK_CONTAINERS = [('T', 'ref'), ('M', 'ref'), ('A', 'src'), ('D', 'src'), ('T', 'src'), ('M', 'src'), ('G', 'src'),
+                   ('G', 'ga'), ('G', 'gd'), ('G', 'gt'), ('G', 'gm')]
+
+
+def gen_c03_link_case(rnd, HK, sl):
+    """one holder of kind HK, slot sl; three targets (plain name, uuid-shaped name, name = the id of another entity);
+    every target is added, queried and removed in each of the three ways"""
+    sh = Shadow(rnd)
+    b = sh.mk(-1, 'B', 'blk', 't')
+    a0 = sh.mk(b, 'A', 'pos', 't', 'Double 1 3')                      # positions of the multi-tags
+    K = SLKIND[sl]
+    uu = [rnd.choice(UUIDISH), '0f8fad5b-d9cb-469f-a165-70867728950e', 'zzzzzzzz-zzzz-zzzz-zzzz-zzzzzzzzzzzz']
+    rnd.shuffle(uu)
+
+    def mk_target(name, nametok=None):
+        if K == 'A':
+            return sh.mk(b, 'A', name, 't', 'Double 1 3', nametok=nametok)
+        if K == 'D':
+            return sh.mk(b, 'D', name, 't', '1 %s Int32 s:' % hx('c'), nametok=nametok)
+        if K == 'T':
+            return sh.mk(b, 'T', name, 't', '1 ' + D1, nametok=nametok)
+        if K == 'M':
+            return sh.mk(b, 'M', name, 't', str(a0), nametok=nametok)
+        return sh.mk(b, 'R', name, 't', nametok=nametok)
+
+    targets = [mk_target(rnd.choice(['plain m', 'alpha', 'a b', '..', 'café'])), mk_target(uu[0]), mk_target(uu[1]),
+               mk_target('#id', nametok='i:%d' % b), mk_target(rnd.choice(['Plain M', 'plain m ', 'x' * 40]))]
+    if K == 'R':
+        # a nested source with the name of a root source, and one with a uuid-shaped name
+        targets.append(sh.mk(targets[0], 'R', uu[2], 't'))
+    if HK == 'A':
+        h = sh.mk(b, 'A', 'holder', 't', 'Double 1 3')
+    elif HK == 'D':
+        h = sh.mk(b, 'D', 'holder', 't', '1 %s Int32 s:' % hx('c'))
+    elif HK == 'T':
+        h = sh.mk(b, 'T', 'holder', 't', '1 ' + D1)
+    elif HK == 'M':
+        h = sh.mk(b, 'M', 'holder', 't', str(a0))
+    else:
+        h = sh.mk(b, 'G', 'holder', 't')
+    ways = ['h', 'n', 'i']
+
+    def add(t, way):
+        sh.emit('ladd %d %s %d' % (h, sl, t) if way == 'h' else 'ladds %d %s %s:%d' % (h, sl, way, t))
+
+    def rm(t, way):
+        sh.emit('lrm %d %s %d' % (h, sl, t) if way == 'h' else 'lrms %d %s %s:%d' % (h, sl, way, t))
+
+    def queries(t):
+        for w in ('n', 'i'):
+            sh.emit('lhass %d %s %s:%d' % (h, sl, w, t))
+            sh.emit('lget %d %s %s:%d' % (h, sl, w, t))
+        sh.emit('lhas %d %s %d' % (h, sl, t))
+
+    # everything in, then out one by one in every way
+    for j, t in enumerate(targets):
+        add(t, ways[j % 3])
+        if sl == 'src' and ways[j % 3] == 'n':
+            add(t, 'i')                       # entity sources can only be attached by id
+    sh.emit('lchk %d %s' % (h, sl))
+    for rmway in ways:
+        order = list(targets)
+        rnd.shuffle(order)
+        for j, t in enumerate(order):
+            queries(t)
+            rm(t, rmway)
+            sh.emit('lchk %d %s' % (h, sl))
+            queries(t)
+            if rnd.random() < 0.3:
+                sh.emit('reopen')
+                sh.emit('lchk %d %s' % (h, sl))
+        # back in, by another way
+        for j, t in enumerate(targets):
+            add(t, ways[(j + 1 + ways.index(rmway)) % 3])
+            if sl == 'src':
+                add(t, 'i')
+        sh.emit('lchk %d %s' % (h, sl))
+        sh.emit('reopen')
+        sh.emit('lchk %d %s' % (h, sl))
+    return Case(sh.lines, 'c03-links-%s-%s' % (HK, sl), {'cls': sh.cls})
+
+
+def gen_c03_link_cases(rnd):
+    return [gen_c03_link_case(rnd, HK, sl) for (HK, sl) in LINK_CONTAINERS]
+
+
 def gen_uuid_cases(rnd, n):
     """looksLikeUUID on strings around the shape 8-4-4-4-12"""
     out = []
